@@ -14,7 +14,8 @@ import re
 
 from . import common as C
 
-THEOREMS = ["propagate_lfp", "propagate_order_irrelevant"]
+THEOREMS = ["propagate_lfp", "propagate_order_irrelevant", "flatten_labels_nodup", "block_compile", "segmentation",
+            "flatten_correct", "saved_complete", "flatten_correct_frame", "saved_incomplete_counterexample"]
 
 MODV = 1009
 ZERO = 12          # pseudo variable: constant 0
@@ -358,13 +359,21 @@ def call_is_blocking(g, cid, blocking_fn):
 
 
 def enc_else(g, els, blocking_fn):
-    """astrewrite toElseBranch: a single if / block statement is used as the else branch itself"""
+    """else part of an if statement: `else if` continues the chain, `else { … }` stays a block (astrewrite keeps the
+    BlockStmt: simplify.go IfStmt case, toElseBranch on a one-element list holding the block)"""
     if els is None:
         return ["K"]
     if els[0] == "I":
         return enc_stmt(g, els, blocking_fn)
     assert els[0] == "{"
-    body = els[1]
+    return ["{"] + enc_list(g, els[1], blocking_fn)
+
+
+def enc_default(g, body, blocking_fn):
+    """default clause of a switch: astrewrite's toElseBranch uses a body that is a single if / block statement as the
+    else branch itself (so a lone `if` continues the chain)"""
+    if body is None:
+        return ["K"]
     if len(body) == 1 and body[0][0] == "I":
         return enc_stmt(g, body[0], blocking_fn)
     if len(body) == 1 and body[0][0] == "{":
@@ -397,7 +406,7 @@ def enc_stmt(g, s, blocking_fn):
         # switch { case c1: b1 ... default: d }  →  sw (ite c1 b1 (ite c2 b2 (default)))
         def chain(i):
             if i == len(s[2]):
-                return enc_else(g, None if s[3] is None else ("{", s[3]), blocking_fn)
+                return enc_default(g, s[3], blocking_fn)
             c, b = s[2][i]
             return ["I", str(c)] + enc_list(g, b, blocking_fn) + chain(i + 1)
         return ["W", lab(s[1])] + chain(0)
@@ -975,7 +984,7 @@ def run(tier, seed):
         # an internal tie broke: widen the observable-level search before reporting
         C.log("[C02] internal tie broken (%s); widening the program search" % sorted(chk.tie_breaks))
         more = []
-        while len(more) < 120:
+        while len(more) < 40:
             g = gen_program(chk.rng, chk.rng.choice([10, 16, 24]))
             if 0 < g.nsites <= 40:
                 more.append(g)
